@@ -13,7 +13,7 @@ import (
 	"pgregory.net/rapid"
 )
 
-const rule = "generated scenario = initial data, one victim transaction (optimistic | pessimistic with locked statements; on unistore also async-commit / 1PC) of 1-5 writes (set, delete, insert, lock-only) over 1-4 keys in 1-3 regions (commit batch size 1 or default, committer concurrency 1 or default, 1 or 3 stores), optionally a conflicting commit that makes the victim's Commit fail, and 1-4 recovery transactions of another client (get, batch-get, scan, reverse scan, optimistic write, pessimistic locked write); a fault-free run counts the N requests Commit issues (synchronous and background), then the scenario is re-run once per crash point i<N and mode (request i never delivered | delivered but the client dies before the answer), the victim client being dead (all its later requests fail) from that instant; then all locks expire, the recovery transactions run, an auditor resolves what is left and the raw MVCC records are read; oracle: single outcome and one commit ts over all written keys, outcome = committed if Commit had returned nil while alive, rolled back if it had returned a definite error, every recovery read equals the final truth at its snapshot (no partial view), no read blocked, no lock left, non-trivial = the dead client left at least one lock behind; distinct = scenario text + crash point"
+const rule = "generated scenario = initial data, one victim transaction (optimistic | pessimistic with locked statements; on unistore also async-commit / 1PC) of 1-5 writes (set, delete, insert, lock-only) over 1-4 keys in 1-3 regions (commit batch size 1 or default, committer concurrency 1 or default, 1 or 3 stores), optionally a conflicting commit that makes the victim's Commit fail, and 1-4 recovery transactions of another client (get, batch-get, scan, reverse scan, optimistic write, pessimistic locked write); a fault-free run counts the N requests Commit issues (synchronous and background), then the scenario is re-run once per crash point i<N and mode (request i never delivered | delivered but the client dies before the answer), the victim client being dead (all its later requests fail) from that instant; then all locks expire, the recovery transactions run, an auditor resolves what is left and the raw MVCC records are read; oracle: single outcome and one commit ts over all written keys, outcome = committed if Commit had returned nil while alive, rolled back if it had returned a definite error, every recovery read equals the final truth at its snapshot (no partial view), no read blocked, every call finishes within 30000 requests (back-off sleeps are virtual), no lock left, non-trivial = the dead client left at least one lock behind; distinct = scenario text + crash point"
 
 func crashPoints(t *testing.T, backend sim.Backend) {
 	rec := ev.For(t, "C02", rule)
